@@ -36,6 +36,9 @@ func runBitHistory(c *Call, slot *CallResult) {
 	slot.Stats = stats
 	var bl *utils.BitList = new(utils.BitList)
 	var model []bool
+	// a second list that the history can switch to and from
+	var other *utils.BitList = new(utils.BitList)
+	var otherModel []bool
 	histID := c.I1
 	lastStream := 0
 
@@ -78,6 +81,10 @@ func runBitHistory(c *Call, slot *CallResult) {
 		op := &c.Ops[i]
 		before := len(model)
 		switch op.Op {
+		case "switch":
+			bl, other = other, bl
+			model, otherModel = otherModel, model
+			stats["switch"]++
 		case "new":
 			if op.A < 0 {
 				continue
@@ -278,6 +285,17 @@ func runBitHistory(c *Call, slot *CallResult) {
 	}
 	if !bytesEq(last, "final GetBytes()", bl.GetBytes()) {
 		return
+	}
+	if len(otherModel) > 0 || other.Len() > 0 {
+		bl, other = other, bl
+		model, otherModel = otherModel, model
+		if bl.Len() != len(model) {
+			fail(last, "Len() of the second list = %d, model says %d", bl.Len(), len(model))
+			return
+		}
+		if !window(last, 0, len(model)) || !bytesEq(last, "final GetBytes() of the second list", bl.GetBytes()) {
+			return
+		}
 	}
 	slot.Class = "ok"
 	slot.Digest = hashBytes("bitlist", packBits(model))
